@@ -54,7 +54,7 @@ def lookup (cands : List Nat) (maxT : Nat) : Reply → RLookup
 /-- the stub's fault names (check/osrm_stub.py) as abstract replies, for a healthy row `dur`, `dist` -/
 def faultReply (name : String) (dur dist : List (Option Nat)) : Reply :=
   if name = "refuse" ∨ name = "drop" ∨ name = "truncate" then .transport
-  else if name = "http500" then .http false .unparsable
+  else if name = "http500" ∨ name = "http503late" then .http false .unparsable
   else if name = "empty" ∨ name = "nonjson" then .http true .unparsable
   else if name = "nodurations" then .http true .noTable
   else if name = "nulls" then .http true (.rows (dur.map fun _ => none) dist)
